@@ -254,13 +254,30 @@ Ltac nh_fin :=
     destruct Hnh as [A B]; unfold NH; ev; split; [try assumption; try reflexivity | try assumption; try discriminate; try congruence]
   end.
 
+Ltac rw_ctx :=
+  repeat match goal with
+         | E : k_state (k _) = _ |- _ => progress rewrite E
+         | E : u_state (u _) = _ |- _ => progress rewrite E
+         | E : k_cmd (k _) = _ |- _ => progress rewrite E
+         | E : k_type (k _) = _ |- _ => progress rewrite E
+         | E : u_cmd (u _) = _ |- _ => progress rewrite E
+         | E : nth_error (pool D) _ = _ |- _ => progress rewrite E
+         end.
+
 Ltac pc_fin :=
-  unfold PC; split; [ev; try reflexivity | split; [nh_fin | unfold cC, cfl; ev;
-    repeat match goal with E : k_state (k _) = _ |- _ => rewrite E end; ev; lex_solve]].
+  unf_helpers; unfold PC; split; [ev; try reflexivity | split; [nh_fin | unfold cC, cfl, fpre, nv; ev;
+    rw_ctx; ev; cbn [app]; lex_solve]].
 
 Ltac pu_fin :=
-  unfold PU; split; [nh_fin | unfold mU, cU, ufl; ev;
-    repeat match goal with E : u_state (u _) = _ |- _ => rewrite E end; ev; lex_solve].
+  unf_helpers; unfold PU; split; [nh_fin | unfold mU, cU, ufl, upre, nv; ev;
+    rw_ctx; ev; cbn [app]; lex_solve].
+
+Ltac pg_fin :=
+  unfold PG;
+  lazymatch goal with
+  | |- Lemmas_C15ba.PC _ _ _ => pc_fin
+  | |- Lemmas_C15ba.PU _ _ _ => pu_fin
+  end.
 
 (* ---- simple states of the command machine ---- *)
 
@@ -347,11 +364,20 @@ Ltac tc_fin :=
   unf_helpers; unfold TC; split; [ev; try reflexivity | split; [nh_fin | unfold cC, cfl, fpre; ev; cbn [hd app]; try lia]].
 Ltac tu_fin :=
   unf_helpers; unfold TU; split; [ev; try reflexivity | split; [nh_fin | unfold cU, ufl, upre; ev; cbn [hd app]; try lia]].
-Ltac tg_fin := unfold TG; first [tc_fin | tu_fin].
+Ltac tg_fin :=
+  unfold TG;
+  lazymatch goal with
+  | |- Lemmas_C15ba.TC _ _ _ _ => tc_fin
+  | |- Lemmas_C15ba.TU _ _ _ _ => tu_fin
+  end.
 
 Ltac brk_pair :=
   match goal with
-  | |- context [let (_, _) := ?x in _] => destruct x as [? ?]
+  | |- context [let (_, _) := ?x in _] =>
+    lazymatch x with
+    | context [match _ with _ => _ end] => fail
+    | _ => destruct x as [? ?]
+    end
   end.
 
 Lemma spfra_TG : forall f s, NH s -> cmd_ok D (g_cmd f s) ->
@@ -367,6 +393,337 @@ Proof.
     brk_pair. destruct b; cbn [negb]; [|tg_fin].
     destruct (vars_access_possible c RO); [tg_fin|].
     destruct (c_hread c); cbn [negb]; tg_fin.
+Qed.
+
+
+Lemma TC_base : forall n s0 s s', TC n s s' -> u s = u s0 -> TC n s0 s'.
+Proof. intros n s0 s s' (A & B & C) H. split; [congruence | split; assumption]. Qed.
+Lemma TU_base : forall n s0 s s', TU n s s' -> u_count (u s) = u_count (u s0) -> TU n s0 s'.
+Proof. intros n s0 s s' (A & B & C) H. split; [congruence | split; assumption]. Qed.
+
+Lemma prt_TG : forall f s, NH s -> cmd_ok D (g_cmd f s) ->
+  TG f 12 6 s (let (s3, ok3) := print_response_test D f s in if ok3 then s3 else end_with_error f s3).
+Proof.
+  intros f s Hnh Hc. unfold print_response_test, cmd_of, cmd_at, print_strings.
+  destruct f; sproj; sproj_in Hc; destruct (cmd_ok_at D _ Hc) as (ci & c & E1 & E2); rewrite E1, E2.
+  - destruct (c_descr c).
+    + brk_pair. destruct b; cbn [negb]; [|tg_fin]. destruct (c_htest c); tg_fin.
+    + cbn [negb]. destruct (c_htest c); tg_fin.
+  - destruct (c_descr c).
+    + brk_pair. destruct b; cbn [negb]; [|tg_fin]. destruct (c_htest c); tg_fin.
+    + cbn [negb]. destruct (c_htest c); tg_fin.
+Qed.
+
+
+Lemma TG_via : forall f nc nu nc' nu' s0 s s', TG f nc nu s s' -> nc <= nc' -> nu <= nu' ->
+  match f with ATCMD => u s = u s0 | UNSOL => u_count (u s) = u_count (u s0) end -> TG f nc' nu' s0 s'.
+Proof.
+  intros f nc nu nc' nu' s0 s s' H L1 L2 E. destruct f; cbn [Lemmas_C15ba.TG] in *.
+  - eapply TC_le; [eapply TC_base; eassumption | exact L1].
+  - eapply TU_le; [eapply TU_base; eassumption | exact L2].
+Qed.
+
+Lemma spfta_TG : forall f s, NH s -> cmd_ok D (g_cmd f s) ->
+  TG f 13 7 s (start_processing_format_test_args D f s).
+Proof.
+  intros f s Hnh Hc. unfold start_processing_format_test_args, cmd_of, cmd_at, print_string.
+  destruct f; sproj; sproj_in Hc; destruct (cmd_ok_at D _ Hc) as (ci & c & E1 & E2); rewrite E1, E2.
+  - brk_pair. destruct b; cbn [negb]; [|tg_fin].
+    brk_pair. destruct b; cbn [negb]; [|tg_fin].
+    destruct (c_vars c); [|tg_fin].
+    match goal with |- context [print_response_test D ATCMD ?s2] =>
+      apply (TG_via ATCMD 12 6 13 7 s s2); [apply prt_TG | lia | lia | ]; ev; try assumption; try reflexivity end.
+    nh_fin.
+  - brk_pair. destruct b; cbn [negb]; [|tg_fin].
+    brk_pair. destruct b; cbn [negb]; [|tg_fin].
+    destruct (c_vars c); [|tg_fin].
+    match goal with |- context [print_response_test D UNSOL ?s2] =>
+      apply (TG_via UNSOL 12 6 13 7 s s2); [apply prt_TG | lia | lia | ]; ev; try assumption; try reflexivity end.
+    nh_fin.
+Qed.
+
+
+Lemma TG_PG : forall f nc nu s s', TG f nc nu s s' ->
+  match f with ATCMD => nc < hd 0 (cC s) | UNSOL => nu < hd 0 (cU s) end -> PG f s s'.
+Proof. intros [|] nc nu s s' H L; [eapply TC_PC | eapply TU_PU]; eassumption. Qed.
+
+(* cat.c:1857 *)
+Lemma format_test_args_PG : forall f s, Safe s -> NH s -> fmt_state f s false ->
+  PG f s (format_test_args D f s).
+Proof.
+  intros f s HS Hnh Hst. destruct (fmt_state_inv D m f s false HS Hst) as (Hv & Hp & _).
+  pose proof (var_ok_cmd D _ _ Hv) as Hc.
+  destruct (var_ok_at D _ _ Hv) as (ci & c & v & E1 & E2 & E3).
+  unfold format_test_args, next_format_var, cmd_of, cmd_at. rewrite E1, E2, E3.
+  destruct f; cbn [fmt_state] in Hst; sproj_in E1; sproj_in Hc.
+  - brk_pair. destruct b; cbn [negb]; [|pg_fin]. ev. rewrite E1, E2.
+    destruct (Nat.ltb_spec (S (k_index (k s))) (length (c_vars c))) as [L|L].
+    + destruct (_ <=? _); cbn [fst snd]; pg_fin.
+    + match goal with |- context [print_response_test D ATCMD ?s2] =>
+        apply (TG_PG ATCMD 12 6); [apply (TG_via ATCMD 12 6 12 6 s s2); [apply prt_TG | lia | lia | ] | ];
+        ev; try assumption; try reflexivity end.
+      * nh_fin.
+      * unfold cC. rewrite Hst. cbn [hd]. lia.
+  - brk_pair. destruct b; cbn [negb]; [|pg_fin]. ev. rewrite E1, E2.
+    destruct (Nat.ltb_spec (S (u_index (u s))) (length (c_vars c))) as [L|L].
+    + destruct (_ <=? _); cbn [fst snd]; pg_fin.
+    + match goal with |- context [print_response_test D UNSOL ?s2] =>
+        apply (TG_PG UNSOL 12 6); [apply (TG_via UNSOL 12 6 12 6 s s2); [apply prt_TG | lia | lia | ] | ];
+        ev; try assumption; try reflexivity end.
+      * nh_fin.
+      * unfold cU. rewrite Hst. cbn [hd]. lia.
+Qed.
+
+
+(* the part of format_read_args that runs after the variable's read callback (cat.c:1783) *)
+Definition fra_body (f : fsm) (c : cmd) (v : var) (s : state) : state :=
+  match nth_error (mem s) (v_slot v) with
+  | None => set_fault_flag s
+  | Some data =>
+    let (c1, ok) := fmt_var v data (get_cur f s) in
+    let s1 := put_cur f c1 s in
+    if negb ok then end_with_error f s1
+    else
+      let (s2, handled) := next_format_var D f s1 in
+      if handled then s2
+      else if c_hread c then set_loop_state f true s2
+      else start_flush_after_ok f s2
+  end.
+
+Lemma fra_body_PG : forall f s ci c v, Safe s -> NH s -> fmt_state f s true ->
+  g_cmd f s = Some ci -> nth_error (pool D) ci = Some c ->
+  nth_error (c_vars c) (g_var f s) = Some v ->
+  PG f s (fra_body f c v s).
+Proof.
+  intros f s ci c v HS Hnh Hst E1 E2 E3.
+  pose proof (fra_body_safe D m WF f s ci c v HS Hst E1 E2 E3) as HN. apply safe_fault in HN.
+  fold (fra_body f c v s) in HN. revert HN.
+  unfold fra_body, next_format_var, cmd_of, cmd_at.
+  destruct (nth_error (mem s) (v_slot v)) as [data|]; [|intros HN; ev_in HN; discriminate HN]. intros _.
+  destruct f; cbn [fmt_state] in Hst; sproj_in E1.
+  - brk_pair. cbv zeta. destruct b; cbn [negb]; [|pg_fin]. ev. rewrite E1, E2.
+    destruct (Nat.ltb_spec (S (k_index (k s))) (length (c_vars c))) as [L|L].
+    + destruct (_ <=? _); cbn [fst snd]; pg_fin.
+    + destruct (c_hread c); pg_fin.
+  - brk_pair. cbv zeta. destruct b; cbn [negb]; [|pg_fin]. ev. rewrite E1, E2.
+    destruct (Nat.ltb_spec (S (u_index (u s))) (length (c_vars c))) as [L|L].
+    + destruct (_ <=? _); cbn [fst snd]; pg_fin.
+    + destruct (c_hread c); pg_fin.
+Qed.
+
+
+(* ---- name sweeps (cat.c:809, 933) ---- *)
+Lemma update_command_PC : forall s, Safe s -> NH s -> k_state (k s) = CS_UPDATE_COMMAND_STATE ->
+  PC s (update_command D s).
+Proof.
+  intros s HS Hnh Hst. safe_open HS. unfold Lemmas_C03b.KS in HK. rewrite Hst in HK. destruct HK as [Hi Hl].
+  unfold update_command.
+  destruct (cmd_by_index_some D _ Hi) as (c & Ec). rewrite Ec.
+  destruct (get_cmd_state_some D m WF s _ Hcb Hi) as (cs & Ecs). rewrite Ecs.
+  match goal with |- context [if negb (cs =? CMD_NOT_MATCH)%N then ?A else s] =>
+    set (X := if negb (cs =? CMD_NOT_MATCH)%N then A else s) end.
+  assert (E : exists b imp, X = setk_implicit imp (set_cbuf b s)).
+  { subst X. assert (Eta : exists b imp, s = setk_implicit imp (set_cbuf b s))
+      by (eexists _, _; apply state_eta_cbuf_impl).
+    assert (Set_ : forall v, exists b imp, set_cmd_state s (k_index (k s)) v =
+                     setk_implicit imp (set_cbuf b s)).
+    { intros v. destruct (set_cmd_state_eff D m WF s (k_index (k s)) v Hcb Hi) as (b & Eb & Lb).
+      exists b, (k_implicit (k s)). rewrite Eb.
+      destruct s as [[] ? ? ? ? ? ? ? ? ? ?]. reflexivity. }
+    destruct (negb (cs =? CMD_NOT_MATCH)%N); [|exact Eta].
+    destruct (Nat.ltb_spec (length (c_name c)) (k_length (k s))) as [L1|L1]; [apply Set_|].
+    destruct (k_length (k s)) as [|l1] eqn:El; [lia|].
+    destruct (nth_error (c_name c) l1) as [nc|] eqn:En;
+      [|apply nth_error_None in En; lia].
+    destruct (negb (to_upper nc =? k_char (k s))%N); [apply Set_|].
+    destruct (S l1 =? length (c_name c)); [|exact Eta].
+    destruct (set_cmd_state_eff D m WF s (k_index (k s)) CMD_FULL Hcb Hi) as (b & Eb & Lb). rewrite Eb.
+    destruct (c_implicit c).
+    - exists b, true. reflexivity.
+    - exists b, (k_implicit (k s)).
+      destruct s as [[] ? ? ? ? ? ? ? ? ? ?]. reflexivity. }
+  destruct E as (b & imp & E). rewrite E. clear E X. cbv zeta.
+  destruct (Nat.leb_spec (ncmds D) (S (k_index (k s)))) as [L|L].
+  - sproj. destruct imp; cbn [negb]; pc_fin.
+  - pc_fin.
+Qed.
+
+Lemma search_command_PC : forall s, Safe s -> NH s -> k_state (k s) = CS_SEARCH_COMMAND ->
+  PC s (search_command D s).
+Proof.
+  intros s HS Hnh Hst. safe_open HS. unfold Lemmas_C03b.KS in HK. rewrite Hst in HK.
+  unfold search_command.
+  destruct (get_cmd_state_some D m WF s _ Hcb HK) as (cs & Ecs). rewrite Ecs. cbv zeta beta.
+  destruct (cs =? CMD_PARTIAL)%N.
+  - destruct (k_cmd (k s)).
+    + destruct (Nat.eqb_spec (S (k_index (k s))) (ncmds D)); [destruct (k_char (k s) =? ch_LF)%N; pc_fin|].
+      sproj. destruct (Nat.leb_spec (ncmds D) (S (k_index (k s)))); [|pc_fin].
+      destruct (_ =? 1); [pc_fin|]. destruct (k_char (k s) =? ch_LF)%N; pc_fin.
+    + sproj. destruct (Nat.leb_spec (ncmds D) (S (k_index (k s)))); [|pc_fin].
+      destruct (_ =? 1); [pc_fin|]. destruct (k_char (k s) =? ch_LF)%N; pc_fin.
+  - destruct (cs =? CMD_FULL)%N; [pc_fin|].
+    sproj. destruct (Nat.leb_spec (ncmds D) (S (k_index (k s)))); [|pc_fin].
+    destruct (k_cmd (k s)); [|destruct (k_char (k s) =? ch_LF)%N; pc_fin].
+    destruct (_ =? 1); [pc_fin|]. destruct (k_char (k s) =? ch_LF)%N; pc_fin.
+Qed.
+
+
+(* cat.c:1019 *)
+Lemma command_found_PC : forall s, Safe s -> NH s -> k_state (k s) = CS_COMMAND_FOUND ->
+  PC s (command_found D s).
+Proof.
+  intros s HS Hnh Hst. safe_open HS. unfold Lemmas_C03b.KS in HK. rewrite Hst in HK.
+  assert (Hcl : hd 0 (cC s) = 18) by (unfold cC; rewrite Hst; reflexivity).
+  unfold command_found, cmd_of, cmd_at. sproj.
+  destruct (cmd_ok_at D _ HK) as (ci & c & E1 & E2). rewrite E1, E2.
+  destruct (k_type (k s)); try (apply ack_error_PC; [exact Hnh | lia]).
+  - destruct (c_only_test c); [apply ack_error_PC; [exact Hnh | lia]|].
+    destruct (c_hrun c); cbn [negb]; [|apply ack_error_PC; [exact Hnh | lia]]. pc_fin.
+  - destruct (c_only_test c); [apply ack_error_PC; [exact Hnh | lia]|].
+    apply (TC_PC D 13); [apply (spfra_TG ATCMD); [exact Hnh | exact HK] | lia].
+  - sproj. destruct (cbuf s); pc_fin.
+Qed.
+
+(* ---- the list printer (cat.c:2031-2144) ---- *)
+Lemma print_cmd_form_PC : forall s c avail suffix next, NH s -> k_state (k s) = CS_PRINT_CMD ->
+  tyr next < tyr (k_type (k s)) ->
+  PC s (print_cmd_form s c avail suffix next).
+Proof.
+  intros s c avail suffix next Hnh Hst Ht.
+  unfold print_cmd_form, print_current_cmd_full_name, print_string, print_strings. destruct avail; [|pc_fin].
+  sproj. destruct (k_length (k s) =? 0).
+  - brk_pair. destruct b; cbn [negb]; [|pc_fin].
+    brk_pair. destruct b; cbn [negb]; pc_fin.
+  - cbn [negb]. brk_pair. destruct b; cbn [negb]; pc_fin.
+Qed.
+
+Lemma cmd_list_next_PC : forall s s0, NH s -> k_state (k s) = CS_PRINT_CMD -> k_index (k s) < ncmds D ->
+  k s0 = set_k_cmd (Some (k_index (k s))) (k s) -> u s0 = u s ->
+  PC s (let (s1, more) := cmd_list_next_cmd D s0 in if more then s1 else ack_ok s1).
+Proof.
+  intros s s0 Hnh Hst Hi Ek Eu. unfold cmd_list_next_cmd. rewrite Ek. sproj.
+  destruct (Nat.leb_spec (ncmds D) (S (k_index (k s)))) as [L|L].
+  - unf_helpers. unfold PC. split; [ev; exact Eu|]. split.
+    + destruct Hnh as [A B]. unfold NH. ev. rewrite Ek. ev. split; [exact A | discriminate].
+    + unfold cC, cfl, fpre. ev. rewrite Hst. cbn [app]. lex_solve.
+  - unfold PC. split; [ev; exact Eu|]. split.
+    + destruct Hnh as [A B]. unfold NH. ev. rewrite Ek. ev. split; [exact A | discriminate].
+    + unfold cC, cfl, fpre. ev. rewrite Hst. lex_solve.
+Qed.
+
+Lemma print_cmd_list_PC : forall s, Safe s -> NH s -> k_state (k s) = CS_PRINT_CMD ->
+  PC s (print_cmd_list D s).
+Proof.
+  intros s HS Hnh Hst. safe_open HS. unfold Lemmas_C03b.KS in HK. rewrite Hst in HK.
+  unfold print_cmd_list. destruct (cmd_by_index_some D _ HK) as (c & Ec). rewrite Ec.
+  set (s0 := setk_cmd (Some (k_index (k s))) s).
+  assert (Hnh0 : NH s0) by (subst s0; nh_fin).
+  assert (Hst0 : k_state (k s0) = CS_PRINT_CMD) by exact Hst.
+  assert (B : forall s', PC s0 s' -> PC s s').
+  { intros s' (A1 & A2 & A3). split; [exact A1 | split; [exact A2|]].
+    replace (cC s) with (cC s0); [exact A3|]. subst s0. unfold cC. ev. rewrite Hst. reflexivity. }
+  change (k_type (k s0)) with (k_type (k s)). change (k_index (k s0)) with (k_index (k s)).
+  destruct (k_type (k s)) eqn:Et.
+  - destruct (is_command_disable D s0 (k_index (k s))).
+    + apply cmd_list_next_PC; auto.
+    + subst s0. destruct (c_only_test c); pc_fin.
+  - apply B, print_cmd_form_PC; auto. change (k_type (k s0)) with (k_type (k s)). rewrite Et. cbn; lia.
+  - apply B, print_cmd_form_PC; auto. change (k_type (k s0)) with (k_type (k s)). rewrite Et. cbn; lia.
+  - apply B, print_cmd_form_PC; auto. change (k_type (k s0)) with (k_type (k s)). rewrite Et. cbn; lia.
+  - apply B, print_cmd_form_PC; auto. change (k_type (k s0)) with (k_type (k s)). rewrite Et. cbn; lia.
+  - apply cmd_list_next_PC; auto.
+Qed.
+
+
+Lemma PC_base : forall s0 s s', PC s s' -> u s = u s0 -> cC s = cC s0 -> PC s0 s'.
+Proof. intros s0 s s' (A & B & C) E1 E2. split; [congruence | split; [exact B | rewrite <- E2; exact C]]. Qed.
+
+(* cat.c:1365: the continuation after the variable's write callback *)
+Definition pwa_tail (c : cmd) (comma : bool) (s : state) : state :=
+  let idx := S (k_index (k s)) in
+  let s := setk_index idx s in
+  if (idx <? length (c_vars c)) && comma then setk_var idx s
+  else if comma then ack_error s
+  else if c_need_all c && negb (idx =? length (c_vars c)) then ack_error s
+  else if negb (c_hwrite c) then ack_ok s
+  else setk_state CS_WRITE_LOOP s.
+
+Lemma pwa_tail_PC : forall s ci c comma, NH s -> k_state (k s) = CS_PARSE_WRITE_ARGS ->
+  k_cmd (k s) = Some ci -> nth_error (pool D) ci = Some c ->
+  PC s (pwa_tail c comma s).
+Proof.
+  intros s ci c comma Hnh Hst E1 E2. unfold pwa_tail. cbv zeta.
+  destruct (Nat.ltb_spec (S (k_index (k s))) (length (c_vars c))) as [L|L]; cbn [andb].
+  - destruct comma; [pc_fin|]. destruct (_ && _); [pc_fin|]. destruct (negb _); pc_fin.
+  - destruct comma; [pc_fin|]. destruct (_ && _); [pc_fin|]. destruct (negb _); pc_fin.
+Qed.
+
+(* ---- the event machine ---- *)
+Lemma check_unsolicited_buffers_PU : forall s, Safe s -> NH s -> u_state (u s) = US_IDLE ->
+  ring_empty s = false -> PU s (check_unsolicited_buffers D s).
+Proof.
+  intros s HS Hnh Hst Hemp. safe_open HS. destruct Hr as (R1 & R2 & R3 & R4).
+  unfold ring_empty in Hemp. apply Nat.eqb_neq in Hemp.
+  unfold check_unsolicited_buffers, pop_unsolicited_cmd, ring_empty.
+  destruct (u_count (u s) =? 0) eqn:E0; [apply Nat.eqb_eq in E0; lia|].
+  destruct (nth_error (u_ring (u s)) (u_head (u s))) as [[ci t]|] eqn:En;
+    [|apply nth_error_None in En; lia].
+  assert (Hci : ci < length (pool D)) by (eapply Forall_nth_error in R4; [|exact En]; exact R4).
+  match goal with |- context [setu_type t ?x] => set (s2 := setu_type t x) end.
+  assert (Hnh2 : NH s2) by (subst s2; nh_fin).
+  assert (Hc2 : u_count (u s2) < u_count (u s)) by (subst s2; ev; lia).
+  assert (Hk2 : cmd_ok D (g_cmd UNSOL s2)) by (subst s2; ev; exact Hci).
+  assert (X : forall s', TU 7 s2 s' -> PU s s').
+  { intros s' (A & B & C). split; [exact B|]. unfold mU. cbn [lexlt]. left. lia. }
+  destruct t; try (apply X; apply (spfra_TG UNSOL); assumption);
+    try (apply X; apply (spfta_TG UNSOL); assumption);
+    (split; [exact Hnh2 | unfold mU; cbn [lexlt]; left; exact Hc2]).
+Qed.
+
+Lemma wait_PU : forall s, NH s -> u_state (u s) = US_FLUSH_WAIT -> k_state (k s) <> CS_FLUSH ->
+  PU s (unsolicited_process_io_write_wait s).
+Proof.
+  intros s Hnh Hst Hk. unfold unsolicited_process_io_write_wait. rewrite ncflush_true by exact Hk.
+  unfold PU. split; [nh_fin|].
+  unfold mU, cU, ufl. ev. rewrite Hst. cbn [lexlt]. right. split; [reflexivity|]. apply lexlt_app_eq. lex_solve.
+Qed.
+
+Lemma flush_adv_PU : forall s ch, NH s -> u_state (u s) = US_FLUSH -> length (ubuf s) = usz_of D ->
+  wbuf_char (u_wbuf (u s)) (ubuf s) (u_position (u s)) = Some ch ->
+  PU s (setu_position (S (u_position (u s))) s).
+Proof.
+  intros s ch Hnh Hst Hub E. unfold PU. split; [nh_fin|].
+  unfold mU, cU, ufl. ev. rewrite Hst. cbn [lexlt]. right. split; [reflexivity|]. apply lexlt_app_eq.
+  pose proof (wbl_adv _ _ _ _ _ E Hub). unfold frank. cbn [lexlt]. left. lia.
+Qed.
+
+Lemma flush_done_PU : forall s, Safe s -> NH s -> u_state (u s) = US_FLUSH ->
+  PU s (match u_wstate (u s) with
+        | WS_BEFORE => s |> setu_position 0 |> setu_wbuf WB_MAIN |> setu_wstate WS_MAIN
+        | WS_MAIN => s |> setu_position 0 |> setu_wbuf (WB_NL (k_cr (k s))) |> setu_wstate WS_AFTER
+        | WS_AFTER => setu_state (u_wafter (u s)) s
+        end).
+Proof.
+  intros s HS Hnh Hst. safe_open HS. unfold Lemmas_C03b.US in HU. rewrite Hst in HU. destruct HU as [_ HA].
+  pose proof (wbl_le (usz_of D) (u_wbuf (u s)) (u_position (u s))) as Hw.
+  destruct (u_wstate (u s)) eqn:Ew.
+  - unfold PU. split; [nh_fin|].
+    unfold mU, cU, ufl. ev. rewrite Hst, Ew. cbn [lexlt]. right. split; [reflexivity|].
+    apply lexlt_app_eq. unfold frank. cbn [wsw wbl lexlt]. left. lia.
+  - unfold PU. split; [nh_fin|].
+    unfold mU, cU, ufl. ev. rewrite Hst, Ew. cbn [lexlt]. right. split; [reflexivity|].
+    apply lexlt_app_eq. unfold frank. cbn [wsw wbl lexlt]. left. lia.
+  - unfold Uafter in HA.
+    destruct (u_wafter (u s)) eqn:Ea; try contradiction;
+      (unfold PU; split; [nh_fin|]);
+      unfold mU, cU, ufl, upre; ev; rewrite Hst, Ea; cbn [app]; lex_solve.
+Qed.
+
+Lemma ureset_PU : forall s, NH s -> hd 0 (cU s) > 0 -> PU s (unsolicited_reset_state s).
+Proof.
+  intros s Hnh Hc. unfold unsolicited_reset_state. unfold PU. split; [nh_fin|].
+  unfold mU. cbn [lexlt]. right. split; [reflexivity|].
+  unfold cU at 1. ev. destruct (cU s) as [|x r]; cbn [hd] in Hc; [lia|]. cbn [lexlt]. left. lia.
 Qed.
 
 End Pure.
